@@ -92,3 +92,63 @@ package logdb
 //@ ensures result == !(old(mk(raftio.NodeInfo, shardID, replicaID) in r.ps) && old(r.ps[mk(raftio.NodeInfo, shardID, replicaID)].Term) == st.Term &&
 //@    old(r.ps[mk(raftio.NodeInfo, shardID, replicaID)].Vote) == st.Vote && old(r.ps[mk(raftio.NodeInfo, shardID, replicaID)].Commit) == st.Commit)
 //@ ensures mk(raftio.NodeInfo, shardID, replicaID) in r.ps && r.ps[mk(raftio.NodeInfo, shardID, replicaID)] == st
+
+// ---------------------------------------------------------------- error flow: a storage error never becomes a successful save (C10)
+// gIOFailed: some call into the key-value store has reported an error
+//@ ghost var gIOFailed bool
+
+//@ extern github.com/lni/dragonboat/v4/internal/logdb/kv (s IKVStore) IterateValue
+//@ ghostset gIOFailed := old(gIOFailed) || result != nil
+//@ extern github.com/lni/dragonboat/v4/internal/logdb/kv (s IKVStore) GetValue
+//@ ghostset gIOFailed := old(gIOFailed) || result != nil
+//@ extern github.com/lni/dragonboat/v4/internal/logdb/kv (s IKVStore) CommitWriteBatch
+//@ ghostset gIOFailed := old(gIOFailed) || result != nil
+//@ extern github.com/lni/dragonboat/v4/internal/logdb/kv (s IKVStore) SaveValue
+//@ ghostset gIOFailed := old(gIOFailed) || result != nil
+//@ extern github.com/lni/dragonboat/v4/internal/logdb/kv (s IKVStore) DeleteValue
+//@ ghostset gIOFailed := old(gIOFailed) || result != nil
+//@ extern github.com/lni/dragonboat/v4/internal/logdb/kv (s IKVStore) BulkRemoveEntries
+//@ ghostset gIOFailed := old(gIOFailed) || result != nil
+//@ extern github.com/lni/dragonboat/v4/internal/logdb/kv (s IKVStore) GetWriteBatch
+//@ extern github.com/lni/dragonboat/v4/internal/logdb/kv (wb IWriteBatch) Put
+//@ extern github.com/lni/dragonboat/v4/internal/logdb/kv (wb IWriteBatch) Delete
+//@ extern github.com/lni/dragonboat/v4/internal/logdb/kv (wb IWriteBatch) Count
+//@ extern github.com/lni/dragonboat/v4/internal/logdb/kv (wb IWriteBatch) Destroy
+//@ extern github.com/lni/dragonboat/v4/internal/logdb/kv (wb IWriteBatch) Clear
+
+//@ func (r *db) listSnapshots [C10]
+//@ trusted iterates the snapshot key range with a decoding callback (closure-heavy; not verified); propagates the store's error
+//@ modifies gIOFailed
+//@ ensures gIOFailed && !old(gIOFailed) ==> result1 != nil
+//@ ensures !gIOFailed ==> old(gIOFailed) == gIOFailed
+
+//@ func (r *db) saveSnapshot [C10]
+//@ noframe
+//@ requires r.kvs != nil
+//@ modifies gIOFailed
+//@ ensures gIOFailed && !old(gIOFailed) ==> result != nil
+
+//@ func (r *db) saveState [C10]
+//@ trusted writes into the in-memory write batch only (no store I/O)
+//@ func (r *db) setMaxIndex [C10]
+//@ trusted writes into the in-memory write batch only (no store I/O)
+//@ func (r *db) saveEntries [C10]
+//@ trusted records entries into the write batch; store read errors inside it panic (fail-stop)
+//@ func (r *db) getWriteBatch [C10]
+//@ trusted returns the context's or a new write batch
+//@ ensures result != nil
+//@ func (r *cache) trySaveSnapshot [C10]
+//@ trusted in-memory cache bookkeeping
+
+// If the underlying storage reports an error during a save, the save fails: it never returns success
+//@ func (r *db) saveRaftState [C10 C04]
+//@ noframe
+//@ requires r.kvs != nil && r.cs != nil
+//@ modifies gIOFailed
+//@ ensures gIOFailed && !old(gIOFailed) ==> result != nil
+
+//@ func (r *db) saveSnapshots [C10 C16]
+//@ noframe
+//@ requires r.kvs != nil && r.cs != nil
+//@ modifies gIOFailed
+//@ ensures gIOFailed && !old(gIOFailed) ==> result != nil
